@@ -37,8 +37,10 @@ Step(e) ==
     [] e.op = "sum" ->
          IF e.mismatches > 0
          THEN /\ PrintT(<<"BAD", ToJson([case |-> e.case, at |-> l, cfg |-> [x |-> 0],
-                            items |-> <<[diag |-> "conversion-differs-from-reference", fmt |-> e.fmt, class |-> e.class,
-                                         mismatches |-> e.mismatches, evaluated |-> e.evaluated]>>])>>)
+                            \* one item per way in which results of this class are wrong
+                            items |-> [i \in DOMAIN e.hows |->
+                                        [diag |-> "conversion-differs-from-reference", fmt |-> e.fmt, class |-> e.class, how |-> e.hows[i].how,
+                                         mismatches |-> e.hows[i].n, evaluated |-> e.evaluated]]])>>)
               /\ bad' = bad + 1 /\ stats' = [stats EXCEPT !.classes = @ + 1]
          ELSE /\ stats' = [stats EXCEPT !.classes = @ + 1] /\ UNCHANGED bad
     [] OTHER -> stats' = [stats EXCEPT !.cases = @ + 1] /\ UNCHANGED bad
